@@ -10,7 +10,8 @@ for d in sorted(glob.glob(os.path.join(VERIF, "seeded", "*", ""))):
     except OSError:
         continue
     name = os.path.basename(d[:-1])
-    first_missed = "yes" if "MISSED" in m.get("caught_by", "").upper() or "missed" in m.get("caught_by", "") else ""
+    first_missed = "yes" if (m.get("first_missed") or "MISSED" in m.get("caught_by", "").upper()
+                             or "missed" in m.get("caught_by", "")) else ""
     rows.append("| %s | %s | %s | %s | %s |" % (name, m.get("breaks_property", ""),
                 m.get("needs_to_manifest", "").replace("|", "/"), m.get("caught_by", "").replace("|", "/"), first_missed))
 with open(os.path.join(VERIF, "seeded", "INDEX.md"), "w") as h:
